@@ -68,3 +68,11 @@ Example getitem_example :
   getitem2 2 3 (concat [[0; 1; 2]; [3; 4; 5]]) (K2 (KInt 0) (KSlice (Some 7) None (Some (-2)))) = Ok (R1 [2; 0]) /\
   getitem2 2 3 (concat [[0; 1; 2]; [3; 4; 5]]) (K2 (KInt 2) (KInt 0)) = Err IndexError.
 Proof. unfold rect. repeat split; try (vm_compute; reflexivity); try (vm_compute; discriminate); repeat constructor. Qed.
+
+(* tie T: the function the translator produces from the CURRENT source of array.py::_range_size (Gen/PyIntArray.v,
+   regenerated on every run) is the model's range_size, which every theorem above is about *)
+From Cspuz Require Import Gen.PyIntArray Array.RangeSizeGen.
+Theorem range_size_from_source : forall start stop step,
+  range_size_py start stop step = range_size start stop step.
+Proof. exact range_size_py_eq. Qed.
+Print Assumptions range_size_from_source.
